@@ -19,6 +19,7 @@ import (
 	"strings"
 
 	"github.com/tsawler/tabula"
+	"github.com/tsawler/tabula/model"
 	"verif/internal/gen/pdfw"
 	"verif/internal/gen/samples"
 	"verif/internal/harness"
@@ -33,18 +34,34 @@ var pageLines [nPages][]string
 func buildDoc() pdfw.Doc {
 	var d pdfw.Doc
 	d.Name = "four"
+	// pages differ in their dominant font size and in where a larger title line sits, so that anything the
+	// layout analysis carries over from one page of a selection to the next changes the later page's structure
+	sizes := [nPages][]float64{
+		{20, 20, 20, 20, 20, 20}, // page 1: six lines of 20 pt
+		{15, 10, 10, 10},         // page 2: a 15 pt title over 10 pt body
+		{12, 12, 12},             // page 3: uniform 12 pt
+		{9, 9, 14, 9, 9},         // page 4: 9 pt body with a 14 pt line in the middle
+	}
 	for p := 0; p < nPages; p++ {
 		var pg pdfw.Page
-		for l := 0; l < 3; l++ {
+		y := 720.0
+		for l, size := range sizes[p] {
 			// every page numbers its fonts by first use (Layout.PerPageFonts): /F1 is WinAnsi Helvetica on odd
 			// pages and a MacRoman TrueType font on even pages, and the accented token tells them apart
-			txt := fmt.Sprintf("pg%dln%d alpha%d%d bravo%d%d charlie%d%d delta%d%d caf\u00e9%d%d", p+1, l+1, p+1, l, p+1, l, p+1, l, p+1, l, p+1, l)
+			txt := fmt.Sprintf("pg%dln%d alpha%d%d bravo%d%d charlie%d%d caf\u00e9%d%d", p+1, l+1, p+1, l, p+1, l, p+1, l, p+1, l)
+			if size >= 14 && size < 20 {
+				txt = fmt.Sprintf("pg%dln%d title%d%d", p+1, l+1, p+1, l)
+			}
 			pageLines[p] = append(pageLines[p], txt)
 			kind := pdfw.Type1WinAnsi
 			if (p+l)%2 == 1 {
 				kind = pdfw.TrueTypeMacRoman
 			}
-			pg.Lines = append(pg.Lines, pdfw.Line{Font: kind, Text: txt, X: 72, Y: 700 - float64(l)*14, Size: 12})
+			pg.Lines = append(pg.Lines, pdfw.Line{Font: kind, Text: txt, X: 72, Y: y, Size: size})
+			y -= size * 1.25
+			if size >= 14 && size < 20 {
+				y -= 10
+			}
 		}
 		d.Pages = append(d.Pages, pg)
 	}
@@ -174,6 +191,7 @@ func run(e *harness.Env) {
 	if err := os.WriteFile(path, built.Bytes, 0o644); err != nil {
 		panic(err)
 	}
+	docBaselinePath = path
 	partA(e, path)
 	partB(e, path)
 	partC(e, dir, path, built.Bytes)
@@ -512,6 +530,15 @@ func checkTerminal(ext *tabula.Extractor, term string, pages []int, oor bool, st
 		}
 	case "Document":
 		doc, _, err := ext.Document()
+		if err == nil && !oor && docBaselinePath != "" {
+			for i, pg := range doc.Pages {
+				if i < len(pages) {
+					if got, want := renderPage(pg), pageStructure(pages[i]); got != want {
+						return "document-page-depends-on-selection", fmt.Sprintf("selection %v: the entry of source page %d differs from Pages(%d).Document():\nin selection: %s\nalone:        %s", pages, pages[i], pages[i], clip(got), clip(want))
+					}
+				}
+			}
+		}
 		if oor {
 			if err == nil {
 				return "out-of-range-accepted", "Document() succeeded"
@@ -563,6 +590,33 @@ func checkTerminal(ext *tabula.Extractor, term string, pages []int, oor bool, st
 		}
 	}
 	return "", ""
+}
+
+// per-page structure baseline: Pages(p).Document() rendered as element kinds + texts
+var (
+	docBaselinePath string
+	docBaseline     = map[int]string{}
+)
+
+func renderPage(pg *model.Page) string {
+	var b strings.Builder
+	for _, el := range pg.Elements {
+		fmt.Fprintf(&b, "[%v:%s]", el.Type(), elText(el))
+	}
+	return b.String()
+}
+
+func pageStructure(p int) string {
+	if s, ok := docBaseline[p]; ok {
+		return s
+	}
+	doc, _, err := tabula.Open(docBaselinePath).Pages(p).Document()
+	s := "error"
+	if err == nil && len(doc.Pages) == 1 {
+		s = renderPage(doc.Pages[0])
+	}
+	docBaseline[p] = s
+	return s
 }
 
 func elText(el interface{}) string {
